@@ -28,6 +28,8 @@ def seeded():
             if wit:
                 break
         how = ', '.join(caught) if caught else '**missed**'
+        if m.get('superseded'):
+            how = 'no longer a break on the current tree (see note)'
         if missed and caught:
             how += f' (not by {", ".join(missed)})'
         note = m.get('confirm_note')
@@ -103,7 +105,9 @@ SCEN_DESC = {
     'rwc': 'RwLock with a cancelled writer waiter',
     'rwcr': 'RwLock with a cancelled *reader* (beside other readers), then exclusion re-checked with fresh readers and writers',
     'relock': 'notified condvar waiters re-locking the mutex while cancelled around the holder\'s unlock',
-    'iocan': 'cancel of coroutines blocked in socket read/accept/connect',
+    'iocan': 'cancel of a coroutine blocked in one of seven receive-side socket calls (unix/tcp stream read, tcp/unix accept, udp recv / recv_from, unix datagram recv_from) beside a bystander transfer: once cancel() has returned it must end with Cancel and close what it owned, whatever the kernel says about its socket',
+    'yieldspin': 'every worker kept busy by coroutines that only yield until a flag is set; the flag is set by a coroutine that becomes ready from outside the workers (sleep ends, unparked / spawned / sent to / posted to by a thread); verdict in logical steps: yields executed after the waker returned',
+    'yieldspinio': 'the same with readiness through the selector: a datagram sent by a thread, an io time-out that expires',
     'iocant': 'cancel of a *timed* recv on a shared socket that lives on: later timed recvs must neither fail early nor lose their datagram',
     'hssem': 'no-hook stress: semaphore hand-over handshake',
     'sem': 'waiters (wait / wait_timeout / try_wait) vs a poster: prefix condition successes <= init + posts at every point, final value',
